@@ -12,6 +12,8 @@
 
   Layer a = the repo's own code (`msgToList`/`listToMsg`/head checks), modelled in
   `Nexus/Codec/Msg.lean` generically over the schema regenerated from wamp/message.go.
+  Layer b = the wire formats (third-party codec): format models in `Nexus/Codec/{MsgPack,CBOR,
+  Json}.lean`, tied to the real codec by the `codec` family.
 
   clause                                         theorem
   ---------------------------------------------  ------------------------------------------
@@ -22,10 +24,20 @@
   trailing empty arguments are omitted           C14_trailing_omitted, C14_both_empty_omitted
   kwargs without args keeps its position         C14_kwargs_keeps_position, C14_args_shape
   never panics                                   C14_msgToList_no_panic, C14_listToMsg_no_panic,
-                                                 C14_fromList_no_panic
+                                                 C14_fromList_no_panic, C14_deserialize_no_panic
   error unless known code + compatible fields    C14_rejects (Go-convertibility, as coded),
                                                  C14_rejects_strict (full statement, WAMP
                                                  typing) and C14_rejects_strict_fails (witness)
+  error for anything that is not a list          C14_rejects_nonlist (full statement) and
+                                                 C14_toplevel_map_accepted(_cbor) (witnesses)
+  value round trip per format, any depth         C14_msgpack_roundtrip, C14_cbor_roundtrip,
+                                                 C14_json_roundtrip (fragment without floats
+                                                 and binaries)
+  the formats agree with each other              C14_cross_format, C14_cross_format_json
+  message round trip through each format         C14_wire_roundtrip
+
+  Not proved, sampled by the family: that ugorji/go/codec implements these formats (encoder
+  bytes, decoder verdicts), float <-> decimal text in JSON, Go's reflect conversions.
 -/
 import Nexus.Codec.MsgLemmas
 import Nexus.Codec.WireLemmas
@@ -265,7 +277,7 @@ theorem C14_norm_id (m : Msg) (hl : m.fields.length = m.schema.fields.length)
     rw [C14_norm_fields m hl i _ _ hv hz, hv]
     by_cases hle : i ≤ lastIdx m
     · cases hn : (m.fields[i]).isNull with
-      | false => simp [hle, hn]
+      | false => simp [hle]
       | true => simp; exact (hkeep i _ _ hle hv hz hn).symm
     · have : lastIdx m < i := by omega
       simp [hle]; exact (hdrop i _ _ this hv hz).symm
@@ -575,18 +587,41 @@ theorem C14_cross_format (v : CVal) (hv : validB MsgPack.maxLen v = true) :
   simp at h1 h2
   exact ⟨h1.trans h2.symm, h1⟩
 
-/-- **Message round trip on the wire**: `Deserialize(Serialize(m)) = norm m` for the MessagePack
-    and CBOR models, for every well-typed message of every type whose emitted list is encodable. -/
+/-- **JSON round trip** for the fragment null / bool / integer (int64 ∪ uint64) / string (any byte
+    string; the codec's escapes) / list / dict of any nesting depth.  `rest` must not continue a
+    number token (it is empty, or starts with anything but a digit + - . e E).  Floats and
+    binaries are outside the fragment (see the header of Nexus/Codec/Json.lean). -/
+theorem C14_json_roundtrip (v : CVal) (rest : Bytes) (hv : Json.okB v = true) (hr : Json.NumSafe rest) :
+    Json.dec (Json.enc v ++ rest) = .ok (v, rest) :=
+  Json.dec_enc v rest hv hr
+
+/-- **The three formats decode each other's meaning identically** on the common fragment. -/
+theorem C14_cross_format_json (v : CVal) (hj : Json.okB v = true) (hv : validB MsgPack.maxLen v = true) :
+    Json.dec (Json.enc v) = .ok (v, [])
+    ∧ MsgPack.dec (MsgPack.enc v) = .ok (v, [])
+    ∧ CBOR.dec (CBOR.enc v) = .ok (v, []) := by
+  have h0 := Json.dec_enc v [] hj Json.numSafe_nil
+  have h1 := MsgPack.dec_enc v [] hv
+  have h2 := CBOR.dec_enc v [] (validB_mono maxLen_le v hv)
+  simp at h0 h1 h2
+  exact ⟨h0, h1, h2⟩
+
+/-- **Message round trip on the wire**: `Deserialize(Serialize(m)) = norm m` for the MessagePack,
+    CBOR and JSON models, for every well-typed message of every type whose emitted list is encodable
+    (JSON: payload within the fragment). -/
 theorem C14_wire_roundtrip (m : Msg) (h : WellTyped m) :
     ∃ l, msgToList m = .ok l
       ∧ (validB MsgPack.maxLen (.list l) = true →
           Wire.deserialize .msgpack (MsgPack.enc (.list l)) = .ok (.ok (norm m)))
       ∧ (validB CBOR.maxLen (.list l) = true →
-          Wire.deserialize .cbor (CBOR.enc (.list l)) = .ok (.ok (norm m))) := by
+          Wire.deserialize .cbor (CBOR.enc (.list l)) = .ok (.ok (norm m)))
+      ∧ (Json.okB (.list l) = true →
+          Wire.deserialize .json (Json.enc (.list l)) = .ok (.ok (norm m))) := by
   obtain ⟨l, h1, _, h3⟩ := C14_list_roundtrip m h
-  refine ⟨l, h1, fun hv => ?_, fun hv => ?_⟩
+  refine ⟨l, h1, fun hv => ?_, fun hv => ?_, fun hv => ?_⟩
   · simp [Wire.deserialize, Wire.decTop, MsgPack.decTop_enc l hv, h3]
   · simp [Wire.deserialize, Wire.decTop, CBOR.decTop_enc l hv, h3]
+  · simp [Wire.deserialize, Wire.decTop, Json.decTop_enc l hv, h3]
 
 /-- **Deserialising arbitrary bytes never panics**: whatever the codec hands over, the repo's code
     answers with a message or an error. -/
